@@ -378,6 +378,73 @@ func buildParseTable(p *Prog, r *Report) map[string][]parseEffect {
 			}
 		}
 	}
+	// … and helper methods of the package called from such a block
+	// (opts.setArchive(), opts.setDevicesAndSpecials(1)): constant stores of the
+	// helper, with its parameters bound to the constant arguments of the call
+	var effectsOfCall func(c ssa.CallInstruction, env map[*ssa.Parameter]int64, depth int) []parseEffect
+	effectsOfCall = func(c ssa.CallInstruction, env map[*ssa.Parameter]int64, depth int) []parseEffect {
+		callee := c.Common().StaticCallee()
+		if callee == nil || callee.Blocks == nil || callee == pa || pkgPathOfFunc(callee) != pkgOpts || depth > 2 {
+			return nil
+		}
+		inner := map[*ssa.Parameter]int64{}
+		for i, pp := range callee.Params {
+			if i >= len(c.Common().Args) {
+				continue
+			}
+			a := c.Common().Args[i]
+			if k, ok := constInt(a); ok {
+				inner[pp] = k
+			} else if ap, ok := a.(*ssa.Parameter); ok {
+				if k, ok := env[ap]; ok {
+					inner[pp] = k
+				}
+			}
+		}
+		var eff []parseEffect
+		for _, b := range callee.Blocks {
+			for _, in := range b.Instrs {
+				switch x := in.(type) {
+				case *ssa.Store:
+					_, f := fieldOfAddr(x.Addr)
+					if f == nil {
+						continue
+					}
+					if k, ok := constInt(x.Val); ok {
+						eff = append(eff, parseEffect{f, k})
+					} else if vp, ok := x.Val.(*ssa.Parameter); ok {
+						if k, ok := inner[vp]; ok {
+							eff = append(eff, parseEffect{f, k})
+						}
+					}
+				case ssa.CallInstruction:
+					eff = append(eff, effectsOfCall(x, inner, depth+1)...)
+				}
+			}
+		}
+		return eff
+	}
+	for _, b := range pa.Blocks {
+		for _, in := range b.Instrs {
+			c, ok := in.(ssa.CallInstruction)
+			if !ok {
+				continue
+			}
+			eff := effectsOfCall(c, nil, 0)
+			if len(eff) == 0 {
+				continue
+			}
+			for _, fact := range FactsAt(in) {
+				bo, ok := fact.Cond.(*ssa.BinOp)
+				if !ok || bo.Op != token.EQL || !fact.Val {
+					continue
+				}
+				if k, ok := constInt(bo.Y); ok {
+					special[k] = append(special[k], eff...)
+				}
+			}
+		}
+	}
 	out := map[string][]parseEffect{}
 	for _, e := range entries {
 		var eff []parseEffect
@@ -496,6 +563,7 @@ func checkMapping(p *Prog, r *Report) {
 func checkStreamSymmetry(p *Prog, r *Report) {
 	defer checkListFraming(p, r, "C14/LIST-FRAMING")
 	defer checkIDListSymmetry(p, r)
+	defer checkTransferSetupSymmetry(p, r)
 	rule := "C14/STREAM-SYMMETRY"
 	r.Rule(rule, "handshake: with negotiate the client writes its version then reads, the server reads then writes; the seed is written/read once; the daemon receiver reads a filter list iff DeleteMode, which the client sender must then write under the same condition (or never forward --delete)", 3)
 	hc := anchorFunc(p, r, pkgRsyncd, "Server", "handleConn")
